@@ -1,23 +1,26 @@
 #!/usr/bin/env python3
 """tools/seedrun.py <seed-dir> [tier] [check ids...]
-Applies seed-dir/patch.diff to /repo, runs the owning check(s), reverts /repo.  Prints a one-line verdict."""
-import json, os, subprocess, sys
+Applies seed-dir/patch.diff to a scratch copy of /repo (under a mktemp dir outside /repo and /verif, removed
+afterwards), runs the owning check(s) against it (VERIF_REPO), prints a one-line verdict.  Equivalent to
+`git -C /repo apply` + check + `git -C /repo checkout -- .`, but never touches /repo."""
+import json, os, shutil, subprocess, sys, tempfile
 d = os.path.abspath(sys.argv[1])
 tier = sys.argv[2] if len(sys.argv) > 2 else "quick"
 meta = json.load(open(os.path.join(d, "meta.json"))) if os.path.exists(os.path.join(d, "meta.json")) else {}
 ids = sys.argv[3:] or [meta.get("property")]
-patch = os.path.join(d, "patch.diff")
-assert subprocess.run(["git", "-C", "/repo", "status", "--porcelain", "--untracked-files=no"], capture_output=True, text=True).stdout.strip() == "", "/repo not clean"
-subprocess.run(["git", "-C", "/repo", "apply", patch], check=True)
+tmp = tempfile.mkdtemp(prefix="verif-seed-")
+repo = os.path.join(tmp, "repo")
 try:
+    subprocess.run(["git", "clone", "-q", "/repo", repo], check=True)
+    subprocess.run(["git", "-C", repo, "apply", os.path.join(d, "patch.diff")], check=True)
     for pid in ids:
-        p = subprocess.run(["/verif/check", pid, tier], capture_output=True, text=True, cwd="/verif")
-        lines = [l for l in p.stdout.splitlines() if l.startswith("VIOLATION") or l.startswith("INCONCLUSIVE") or l.startswith("  violated")]
+        outdir = os.path.join(tmp, "ev")
+        env = dict(os.environ, VERIF_REPO=repo, VERIF_EVIDENCE_DIR=outdir)
+        p = subprocess.run(["/verif/check", pid, tier], capture_output=True, text=True, cwd="/verif", env=env)
         asserts = sorted(set(l.split()[2] for l in p.stdout.splitlines() if l.startswith("  violated")))
-        print("%s %s %s exit=%d violations=%d asserts=%s" % (os.path.basename(os.path.dirname(d)) + "/" + os.path.basename(d), pid, tier, p.returncode, sum(1 for l in lines if l.startswith("VIOLATION")), asserts[:6]))
+        nviol = sum(1 for l in p.stdout.splitlines() if l.startswith("VIOLATION"))
+        print("%s %s %s exit=%d violations=%d asserts=%s" % (os.path.basename(d), pid, tier, p.returncode, nviol, asserts[:6]))
         if p.returncode == 2:
             print("\n".join(l[:300] for l in p.stdout.splitlines() if l.startswith("INCONCLUSIVE"))[:1500])
 finally:
-    subprocess.run(["git", "-C", "/repo", "checkout", "--", "."], check=True)
-    # evidence files were rewritten by the run on the mutated tree: restore the committed ones
-    subprocess.run(["git", "-C", "/verif", "checkout", "--", "evidence"], check=False)
+    shutil.rmtree(tmp, ignore_errors=True)
